@@ -42,6 +42,7 @@ def plan(tier, seed):
     for mask in range(64):
         ch.append({"key": f"dispatch/{mask:02d}", "kind": "dispatch", "mask": mask, "cost": 5 ** BOUNDS[tier]["hist_depth"] // 50})
     ch.append({"key": "get_handlers", "kind": "get_handlers", "cost": 50})
+    ch.append({"key": "methods/all-commands", "kind": "methods", "cost": 300})
     return ch
 
 
@@ -411,6 +412,84 @@ def chunk_get_handlers(chunk, acc):
     acc.sample({"get_handlers": "called three times per command for all 64 registration subsets"})
 
 
+def unambiguous_commands(c2):
+    """(value, name) of every BeaconCommand value that has exactly one name (aliases make on_<name> ambiguous)."""
+    by = {}
+    for name, member in c2.BeaconCommand.__members__.items():
+        by.setdefault(int(member), []).append(name)
+    return sorted((v, names[0]) for v, names in by.items() if len(names) == 1)
+
+
+def run_methods(with_methods, order):
+    """A client class that defines an on_<command> method for EVERY command (or none) plus a catch-all; one task per
+    command. -> None or (signature, expected, observed)"""
+    from dissect.cobaltstrike import c2
+    from dissect.cobaltstrike.client import HttpBeaconClient
+
+    cmds = unambiguous_commands(c2)
+    if order == "reversed":
+        cmds = cmds[::-1]
+    calls = []
+    state = {"i": -1}
+
+    class Cl(HttpBeaconClient):
+        def get_task(self):
+            state["i"] += 1
+            if state["i"] >= len(cmds):
+                raise StopLoop()
+            return make_task(c2, cmds[state["i"]][0], state["i"])
+
+        def send_callback(self, callback_id, data):
+            calls.append((state["i"], "CALLBACK"))
+
+        def on_catch_all(self, task):
+            calls.append((state["i"], "catchall"))
+
+    if with_methods:
+        for v, name in cmds:
+            short = name[len("COMMAND_"):].lower() if name.startswith("COMMAND_") else name.lower()
+
+            def mk(short):
+                return lambda self, task: calls.append((state["i"], "on_" + short))
+
+            setattr(Cl, "on_" + short, mk(short))
+    cfg = fresh_config()
+    with Seams():
+        cl = Cl()
+        r = call(cl.run, cfg, dry_run=True, beacon_id=2, user="u", computer="c", process="p", silent=True, sleeptime=1000, jitter=0)
+        if isinstance(r, str):
+            return "C19/dispatch/setup", "dry run", r
+        try:
+            cl._beacon_loop()
+            return "C19/dispatch/loop-ended", "StopLoop", "returned"
+        except StopLoop:
+            pass
+        except Exception as e:  # noqa
+            return "C19/dispatch/loop-exception", "StopLoop", f"{type(e).__name__}: {e}"
+    for i, (v, name) in enumerate(cmds):
+        short = name[len("COMMAND_"):].lower() if name.startswith("COMMAND_") else name.lower()
+        exp = ["on_" + short] if with_methods else ["catchall"]
+        got = sorted(n for (idx, n) in calls if idx == i)
+        if got != exp:
+            return "C19/dispatch/method-handler", {"command": name, "value": v, "handlers": exp}, {"invoked": got}
+    return None
+
+
+def chunk_methods(chunk, acc):
+    from dissect.cobaltstrike import c2
+
+    n = len(unambiguous_commands(c2))
+    for with_methods in (True, False):
+        for order in ("ascending", "reversed"):
+            acc.states += 1
+            acc.transitions += n
+            bad = run_methods(with_methods, order)
+            acc.case(("methods", with_methods, order), nontrivial=True, outcome=bad[0] if bad else n)
+            if bad:
+                acc.fail(bad[0], {"kind": "methods", "with_methods": with_methods, "order": order}, bad[1], bad[2])
+    acc.sample({"commands": n, "client": "on_<command> method for every command with an unambiguous name + on_catch_all", "oracle": "each task reaches exactly its own method once (the catch-all only when there is no method)"})
+
+
 def run_chunk(chunk, acc):
     globals()["chunk_" + chunk["kind"]](chunk, acc)
 
@@ -419,6 +498,9 @@ def replay(case):
     from vmc.runner import Acc
 
     a = Acc("replay", "quick", 0)
+    if case["kind"] == "methods":
+        bad = run_methods(case["with_methods"], case["order"])
+        return {"ok": bad is None, "expected": bad[1] if bad else None, "observed": bad[2] if bad else None}
     if case["kind"] == "dispatch":
         bad = run_dispatch(case["mask"], tuple(case["tasks"]), case["silent"])
         return {"ok": bad is None, "expected": bad[1] if bad else None, "observed": bad[2] if bad else None}
